@@ -431,7 +431,7 @@ pub fn run(tier: Tier, seed: u64) -> i32 {
     let ctx = Ctx::new("C11", tier, seed, "exploration");
     let mut r = Sm::derive(seed, &[11]);
     let specs = settings(&mut r, tier == Tier::Thorough);
-    let n_samples = tier.pick(2_000, 40_000);
+    let n_samples = tier.pick(2_000, 200_000);
     par_shards(specs.len(), crate::util::n_threads(), |i| {
         let spec = &specs[i];
         with_kit!(spec, K, kit => check_spec::<K>(&ctx, &kit, seed.wrapping_add(i as u64 * 31337), n_samples));
